@@ -331,6 +331,11 @@ def collect_function(fn, fname):
                 published.append(((rhs.get("referencedDecl") or {}).get("name", "?"), inner[0]))
         if k == "UnaryOperator" and n.get("opcode") in ("++", "--"):
             stores.append((here, inner[0]))
+        if k == "VarDecl" and n.get("storageClass") == "static":
+            t = qual(n)
+            # writable function-local static: state shared by every context and thread that runs this function
+            if not re.match(r"^\s*(static\s+)?const\b", t) and " const" not in t.split("[")[0].split("*")[-1] + " ":
+                fn.setdefault("_statics", set()).add(n.get("name", "?"))
         if k == "DeclRefExpr":
             rd = n.get("referencedDecl") or {}
             if rd.get("kind") == "FunctionDecl" and rd.get("name"):
@@ -395,8 +400,25 @@ def scan_file(args):
     repo, rel, headers = args
     ast = _clang_ast(repo, rel)
     fname = os.path.basename(rel)
-    funcs, tables = [], {}
+    funcs, tables, fields = [], {}, {}
+
+    def record_fields(rd, prefix):
+        """field path -> C type of every scalar field of a record (anonymous member structs are descended)"""
+        anon = None
+        for c in rd.get("inner") or []:
+            if c.get("kind") == "RecordDecl":
+                anon = c
+            elif c.get("kind") == "FieldDecl":
+                t = (c.get("type") or {}).get("desugaredQualType") or (c.get("type") or {}).get("qualType") or ""
+                if ("unnamed" in t or "anonymous" in t) and anon is not None:
+                    record_fields(anon, prefix + c.get("name", "?") + ".")
+                else:
+                    fields[prefix + c.get("name", "?")] = t
+                anon = None
+
     for d in ast.get("inner", []):
+        if d.get("kind") == "RecordDecl" and d.get("name") in WANTED_RECORDS and d.get("completeDefinition"):
+            record_fields(d, d["name"] + ".")
         loc = d.get("loc", {})
         eloc = loc.get("expansionLoc") or loc
         from_header = "includedFrom" in eloc
@@ -416,8 +438,24 @@ def scan_file(args):
         entries = [{"file": where, "func": name, "target": t, "smix": sm, "field": fl, "via": via, "line": ln}
                    for (ln, t, sm, fl, via) in collect_function(d, where)]
         funcs.append({"name": name, "file": where, "static": d.get("storageClass") == "static", "entries": entries,
-                      "calls": sorted(d.get("_calls", set())), "varrefs": sorted(d.get("_varrefs", set()))})
-    return funcs, tables, fname
+                      "calls": sorted(d.get("_calls", set())), "varrefs": sorted(d.get("_varrefs", set())),
+                      "statics": sorted(d.get("_statics", set()))})
+    return funcs, tables, fname, fields
+
+
+# records whose integer field widths matter to the writers (indices into sample data, invert-loop state)
+WANTED_RECORDS = {"channel_data", "xmp_sample", "extra_sample_data", "mixer_voice", "loop_data"}
+C_INT_TYPES = {"int": (32, True), "unsigned int": (32, False), "short": (16, True), "unsigned short": (16, False),
+               "signed char": (8, True), "char": (8, True), "unsigned char": (8, False), "long": (64, True),
+               "unsigned long": (64, False), "long long": (64, True), "unsigned long long": (64, False)}
+# (field path, role): the invert-loop state, the loop bounds it is compared with / added to, the indices of the patch
+INDEX_FIELDS = [("channel_data.invloop.speed", "invSpeed"), ("channel_data.invloop.count", "invCount"),
+                ("channel_data.invloop.pos", "invPos"),
+                ("xmp_sample.len", "loopBound"), ("xmp_sample.lps", "loopBound"), ("xmp_sample.lpe", "loopBound"),
+                ("extra_sample_data.sus", "loopBound"), ("extra_sample_data.sue", "loopBound"),
+                ("mixer_voice.start", "patchIndex"), ("mixer_voice.end", "patchIndex"),
+                ("loop_data.start", "patchIndex"), ("loop_data.end", "patchIndex"),
+                ("loop_data.prologue_num", "patchIndex"), ("loop_data.epilogue_num", "patchIndex")]
 
 
 # API functions that are not "post-load" calls on a loaded module: creation, loading, testing, tear-down
@@ -463,12 +501,15 @@ def reachable_functions(repo):
     headers = _libxmp_header_inlines(repo)
     todo = sorted(os.path.relpath(p, os.path.join(repo, "src")) for p in glob.glob(os.path.join(repo, "src", "*.c")))
     index = _definition_index(repo)
-    parsed, records, tables = set(), {}, {}
+    parsed, records, tables, fields = set(), {}, {}, {}
     roots = api_roots(repo)
     with concurrent.futures.ProcessPoolExecutor(max_workers=min(16, os.cpu_count() or 2)) as ex:
         while True:
             batch = [f for f in todo if f not in parsed]
-            for funcs, tbls, fname in ex.map(scan_file, [(repo, f, headers) for f in batch]):
+            for funcs, tbls, fname, flds in ex.map(scan_file, [(repo, f, headers) for f in batch]):
+                for k, v in flds.items():
+                    if fields.setdefault(k, v) != v:
+                        raise GenError("field %s has different types in different translation units" % k)
                 for fr in funcs:
                     lst = records.setdefault(fr["name"], [])
                     if not any(o["file"] == fr["file"] for o in lst):
@@ -521,7 +562,7 @@ def reachable_functions(repo):
         fr["callers"] = sorted(callers.get(fr["name"], set()) - {fr["name"]})
     if not any(fr["name"] == "xmp_play_frame" for fr in order):
         raise GenError("xmp_play_frame not found among the parsed functions")
-    return order, roots, sorted(parsed)
+    return order, roots, sorted(parsed), fields
 
 
 # ---- control skeleton of the functions that patch / restore -------------------
@@ -658,7 +699,9 @@ def constants(repo):
     player = open(os.path.join(repo, "src", "player.c"), errors="replace").read()
     tbl = need(r"\binvloop_table\s*\[\s*\]\s*=\s*\{([^}]*)\}", player, "invloop_table").group(1)
     table = [int(x, 0) for x in re.findall(r"[-+]?\w+", tbl)]
-    return {"loopPrologue": pro, "loopEpilogue": epi, "guardPreBytes": g1, "guardPostFrames": post, "invloopTable": table}
+    common = open(os.path.join(repo, "src", "common.h"), errors="replace").read()
+    mss = int(need(r"#\s*define\s+MAX_SAMPLE_SIZE\s+(0x[0-9a-fA-F]+|\d+)", common, "MAX_SAMPLE_SIZE").group(1), 0)
+    return {"maxSampleSize": mss, "loopPrologue": pro, "loopEpilogue": epi, "guardPreBytes": g1, "guardPostFrames": post, "invloopTable": table}
 
 
 # ---- output -------------------------------------------------------------------
@@ -669,7 +712,14 @@ def lean_str(s):
 
 def generate(repo=None):
     repo = repo_root(repo)
-    reach, roots, parsed = reachable_functions(repo)
+    reach, roots, parsed, fields = reachable_functions(repo)
+    idx = []
+    for path, role in INDEX_FIELDS:
+        t = re.sub(r"\b(const|volatile)\b", "", fields.get(path, "")).strip()
+        if t not in C_INT_TYPES:
+            raise GenError("field %s not found or not a plain integer (type %r)" % (path, fields.get(path)))
+        idx.append((path, role) + C_INT_TYPES[t])
+    statics = sorted({(fr["file"], fr["name"], v) for fr in reach for v in fr["statics"]})
     entries = [e for fr in reach for e in fr["entries"]]
     for fr in reach:
         for e in fr["entries"]:
@@ -715,6 +765,19 @@ def generate(repo=None):
     L.append("/-- guard bytes in front of every sample's data and guard frames after it (libxmp_load_sample) -/")
     L.append("def guardPreBytes : Nat := %d" % k["guardPreBytes"])
     L.append("def guardPostFrames : Nat := %d" % k["guardPostFrames"])
+    L.append("/-- `MAX_SAMPLE_SIZE` (src/common.h): longer samples are not loaded (`data == NULL`) -/")
+    L.append("def maxSampleSize : Nat := %d" % k["maxSampleSize"])
+    L.append("/-- declared C type (bits, signed) of the integer fields that hold sample indices or invert-loop state, with")
+    L.append("their role: `invSpeed`/`invCount`/`invPos` = `xc->invloop`, `loopBound` = loop points the invert-loop position is")
+    L.append("compared with, `patchIndex` = element indices of the wrap-around patch -/")
+    L.append("def indexFields : List (String × String × Nat × Bool) := [")
+    L.append(",\n".join("  (%s, %s, %d, %s)" % (lean_str(pth), lean_str(role), bits, "true" if sg else "false")
+                         for pth, role, bits, sg in idx))
+    L.append("]")
+    L.append("/-- writable function-local `static` variables in functions reachable from the post-load API (file, function,")
+    L.append("variable): state shared between contexts and threads -/")
+    L.append("def localStatics : List (String × String × String) := [" + ", ".join(
+        "(%s, %s, %s)" % (lean_str(a), lean_str(b), lean_str(c)) for a, b, c in statics) + "]")
     L.append("/-- `invloop_table` (src/player.c): per-tick increment of the invert-loop counter by effect speed -/")
     L.append("def invloopTable : List Nat := [" + ", ".join(str(x) for x in k["invloopTable"]) + "]")
     L.append("")
